@@ -84,7 +84,52 @@ func c20d1run(ctx *Ctx, name, golit, knownSig string, build func(o *c20d1obs) fu
 
 type c20capsule struct{ n int }
 
+// c20d1scenarios: scripted histories for the entry points added to the heap model in this round
+// (diffed against Lean like every history, and judged by (S)).
+func c20d1scenarios(ctx *Ctx) {
+	// C20.pathSetAddAllSteps_counterexample: the members AddAllSteps files share the caller's array
+	s := newScen(ctx, "AddAllSteps: append to a listed member overwrites a longer member")
+	p0 := s.g(&c20Op{name: "nilPath"})
+	pa := s.g(&c20Op{name: "pathGetAttr", a: p0, s: "a"})
+	pab := s.g(&c20Op{name: "pathGetAttr", a: pa, s: "b"})
+	ps := s.g(&c20Op{name: "newPathSet"})
+	s.do(&c20Op{name: "psAddAllSteps", a: ps, b: pab})
+	l := s.g(&c20Op{name: "psList", a: ps})
+	for i := 0; i < 2; i++ {
+		q := s.g(&c20Op{name: "elemPath", a: l, n: int64(i)})
+		if len(s.r.h.gos[q].path) == 1 {
+			s.g(&c20Op{name: "appendStep", a: q, s: "zz"})
+		}
+	}
+	s.end()
+	// the remedy: AddAllSteps(path.Copy()) keeps the caller's path the caller's; Remove leaves the other members alone
+	s = newScen(ctx, "AddAllSteps(Copy) then write the path; Remove a prefix")
+	p0 = s.g(&c20Op{name: "nilPath"})
+	pa = s.g(&c20Op{name: "pathGetAttr", a: p0, s: "a"})
+	pab = s.g(&c20Op{name: "pathGetAttr", a: pa, s: "b"})
+	cp := s.g(&c20Op{name: "pathCopy", a: pab})
+	ps = s.g(&c20Op{name: "newPathSet"})
+	s.do(&c20Op{name: "psAddAllSteps", a: ps, b: cp})
+	s.do(&c20Op{name: "setStep", a: pab, n: 0, s: "zz"})
+	s.do(&c20Op{name: "psRemove", a: ps, b: pa})
+	s.do(&c20Op{name: "psHas", a: ps, b: pa})
+	s.do(&c20Op{name: "psHas", a: ps, b: cp})
+	s.end()
+	// WithSameMarks reads the source's marker, builds its own
+	s = newScen(ctx, "WithSameMarks then write the marks of the source")
+	v := s.v(&c20Op{name: "stringVal", s: "a"})
+	m := s.v(&c20Op{name: "mark", a: v, s: "p"})
+	w := s.v(&c20Op{name: "withSameMarks", a: v, b: m})
+	_ = w
+	s.do(&c20Op{name: "unmark", a: m})
+	mk := len(s.r.h.gos) - 1
+	s.do(&c20Op{name: "marksAdd", a: mk, s: "q"})
+	s.v(&c20Op{name: "withSameMarks", a: m, b: w})
+	s.end()
+}
+
 func c20d1(ctx *Ctx) {
+	c20d1scenarios(ctx)
 	str, num := cty.StringVal, cty.NumberIntVal
 	// ---- marks with paths
 	c20d1run(ctx, "UnmarkDeepWithPaths: write the mark sets and paths it returns",
